@@ -827,10 +827,8 @@ def handle(line: str) -> str:
                     return "ERR " + err_name(e)
             g = Getter()
             body = analyse(TableLineageAnalyzer(g))
-            if not body.startswith("OK "):
-                return body
-            # the same statement on an analyser that has already answered other statements over this catalogue in this process:
-            # the lineage must be the same (only the provider log may shrink)
+            # the same statement on an analyser that has already answered other statements over this catalogue in this process - accepted AND
+            # rejected ones: the answer must be the same (only the provider log may shrink)
             key = tuple(sorted(cat.items()))
             if key not in _LINEAGE_REUSE:
                 g2 = Getter()
@@ -838,6 +836,8 @@ def handle(line: str) -> str:
             body2 = analyse(_LINEAGE_REUSE[key])
             if body2 != body:
                 return "ERR HistoryDependent " + body2[:160] + " <> " + body[:160]
+            if not body.startswith("OK "):
+                return body
             return body + " ; ASKED " + ",".join(so(k) for k in g.asked)
         except Exception as e:  # noqa
             return "BAD-REQUEST " + repr(e)
